@@ -86,7 +86,7 @@ func (n *xsNode) step(a xsAct) (errText string) {
 	base := runtime.NumGoroutine()
 	// default controls: nothing expired, equal sort counters
 	n.setTimes(nil, nil, false)
-	n.setOrder(a.Ord, nil, 0)
+	n.setOrder(a.Ord, "")
 	switch a.Name {
 	case "AddNode":
 		n.net.mu.Lock()
@@ -123,14 +123,8 @@ func (n *xsNode) step(a xsAct) (errText string) {
 	case "SaveBlock":
 		n.setSaveLock(n.heldS)
 		defer n.parkSave()
-		if a.Rej {
-			if src := n.firstBadSource(); src != "" {
-				e := int64(0)
-				if a.Del {
-					e = SYNC_MAX_ERROR_RESP_TIMES - 1
-				}
-				n.setOrder(a.Ord, map[string]int64{src: e}, 1)
-			}
+		if a.Rej && a.Del {
+			n.setOrder(a.Ord, n.firstBadSource())
 		}
 		if a.Hold {
 			r := n.runHeld("S", 1, m.saveBlock)
@@ -162,12 +156,8 @@ func (n *xsNode) step(a xsAct) (errText string) {
 				hs = append(hs, c.goodHeader(h))
 			}
 		}
-		if a.Ng < a.Hi-a.Lo+1 {
-			e := int64(0)
-			if a.Del {
-				e = SYNC_MAX_ERROR_RESP_TIMES - 1
-			}
-			n.setOrder(a.Ord, map[string]int64{a.P: e}, 1)
+		if a.Ng < a.Hi-a.Lo+1 && a.Del {
+			n.setOrder(a.Ord, a.P)
 		}
 		m.OnHeaderReceive(n.ids[a.P], hs)
 		ok := xsWaitSpawned(base)
